@@ -18,7 +18,7 @@ CHECKS = {
             "Stripes are encoded by the harness's own reference, not by the code under test. raid_scan uniqueness only asserted for whole-block random garbage."),
     "C01": ("exploration",
             "runtime monitor: harness-owned version store (bytes+mtime snapshot at sync time) compared with the data disks after damage+fix, fix/check exit status and summary tags; plain and ASan/UBSan builds",
-            "Random configurations and sync histories ending in a clean sync, then damage plans bounded by the parity count (whole devices, or <= N blocks of every stripe chosen from the decoded block map), then fix + check; thorough enumerates ALL device subsets of size <= N for arrays with nd+np <= 7. The oracle never trusts the tool: expected bytes, mtimes, link targets come from the harness's own record of what it wrote.",
+            "Random configurations and sync histories ending in a clean sync, then damage plans bounded by the parity count (whole devices, or <= N blocks of every stripe chosen from the decoded block map), then fix + check; thorough enumerates ALL device subsets of size <= N for arrays with nd+np <= 7. The oracle never trusts the tool: expected bytes, mtimes, link targets come from the harness's own record of what it wrote. Damage kinds include links re-pointed to a prefix / extension of the recorded target or replaced by plain files or independent copies.",
             "Sampled configurations/histories. One content copy outside the data disks always survives. Undetectable damage (truncated-hash collisions) is screened out with the frozen reference hash. Open finding F11 (unaligned truncated parity with format-2 content) is reported as KNOWN-FINDING."),
     "C04": ("exploration",
             "runtime monitor: one corruption at a time predicted from the independently decoded block map, compared with error:/parity_error: log tags, exit status and bad marks (status -G + decoded info words); negative control on the undamaged array first",
@@ -26,23 +26,23 @@ CHECKS = {
             "Arrays are sampled; reduced hash sizes and hash migration are in the configuration space. Collisions under truncated hashes are screened with the frozen reference hash and counted trivial. Strategy log lines (parity_error:...:hash) are not treated as location claims."),
     "C05": ("exploration",
             "runtime monitor with a harness-owned version store: content file decoded before fix, data dirs snapshot before/after, fix tags and exit status; every recorded file must hold the recorded version's bytes or be reported unrecoverable; violations are keyed by a diagnosis of the witness block (state, recorded hash vs frozen-reference hash of new / old occupant bytes)",
-            "Histories with complete, partial (-S/-B), killed-after-parity syncs, stripes skipped because a file of the stripe is rewritten/removed/touched between scan and sync (--test-run), copy-detected files, and files replaced at the same position (the shape of the hand-found defects); then detectable damage on 0..nd+np devices; then fix with and without -f/-d/-m/-e. Oracle: never wrong bytes under a recorded name unless reported, never status:recovered with other bytes, nothing unknown to the content file or outside -d written, exit status reflects unrecoverable reports.",
+            "Histories with complete, partial (-S/-B), killed-after-parity syncs, stripes skipped because a file of the stripe is rewritten/removed/touched between scan and sync (--test-run), copy-detected files, and files replaced at the same position (the shape of the hand-found defects); then detectable damage on 0..nd+np devices; then fix with and without -f/-d/-m/-e. Oracle: never wrong bytes under a recorded name unless reported, never status:recovered with other bytes, nothing unknown to the content file or outside -d written, exit status reflects unrecoverable reports. A separate family marks stripes bad (silent damage + scrub), lets the user change stripe mates and damaged files, and runs fix -e / -b: files changed after the sync and files without a bad block must keep bytes, size and time-stamp.",
             "Only detectable damage; hash size 16. Files fix did not touch are not attributed to fix. Open findings F5, F21 and F23 (heuristics for never-synced CHG blocks) are reported as KNOWN-FINDING by mechanism key."),
     "C06": ("exploration",
             "runtime monitor: independent content-file decoder + GF(2^8) parity oracle over a harness-owned version store, applied after every command of random histories (plain and ASan/UBSan builds)",
-            "After every single command of random histories (syncs of all kinds incl. partial, forced, pre-hash, autosave, kill-after-sync; scrub; fix after random damage; rehash; touch; disk removal/addition leaving position holes) each on-disk content file is decoded independently, the block-map invariants are asserted and every stripe whose blocks are all recorded synced is recomputed from the version store and compared with the parity files at the offset given by the recorded split sizes. This is the right level because the property is a state invariant quantified over histories: an oracle after each step over thousands of sampled histories observes exactly the state the property talks about.",
+            "After every single command of random histories (syncs of all kinds incl. partial, forced, pre-hash, autosave, kill-after-sync; scrub; fix after random damage; rehash; touch; disk removal/addition leaving position holes) each on-disk content file is decoded independently, the block-map invariants are asserted and every stripe whose blocks are all recorded synced is recomputed from the version store and compared with the parity files at the offset given by the recorded split sizes. This is the right level because the property is a state invariant quantified over histories: an oracle after each step over thousands of sampled histories observes exactly the state the property talks about. Scripted motifs walk the REP/CHG/DELETED corner states, and run fix -e / -b on a bad-marked stripe one of whose files the user rewrote.",
             "Histories are sampled (300 quick / 6000 thorough), not enumerated. Damage injected by the harness itself is tolerated (fix must only not break more). Durability ordering (fsync before content) is observed and reported but not judged: the property does not state it and a process kill cannot expose it."),
     "C07": ("fault_enumeration",
             "fault enumeration over kill points: LD_PRELOAD shim numbers every state-changing system call of sync/fix and kills the process before/after/in the middle of call k, or raises SIGINT at the j-th parity write; oracles = data snapshot diff, content loadability, version-store recovery test, resume sync + parity oracle + recovery + check, twin comparison for fix",
-            "Every state-changing call on data/parity/content files of sync and of fix is a kill point in three modes (all of them in thorough, stratified in quick), plus SIGINT at every parity write and kills after each content rename with slowed parity writers. After each interruption the properties' own clauses are evaluated: data untouched, a content file loads, earlier files recoverable meanwhile (adds-only), a second sync re-establishes parity validity and recoverability; for fix, a second run converges to the uninterrupted twin's tree.",
+            "Every state-changing call on data/parity/content files of sync and of fix is a kill point in three modes (all of them in thorough, stratified in quick), plus SIGINT at every parity write and kills after each content rename with slowed parity writers. After each interruption the properties' own clauses are evaluated: data untouched, a content file loads, earlier files recoverable meanwhile (adds-only), a second sync re-establishes parity validity and recoverability; for fix, a second run converges to the uninterrupted twin's tree. Between the interruption and the resume old data may come back and pending files (copies above all) may be re-timed.",
             "Kill = process death, page cache survives. Hash size 16 only (reduced hash sizes cannot represent the special ZERO hash the adds-only guarantee relies on; documented limitation). Open findings F15, F16, F17, F22 are reported as KNOWN-FINDING by mechanism key."),
     "C08": ("fault_enumeration",
             "fault enumeration over I/O calls: LD_PRELOAD shim fails the read/write of an addressed (file, block offset) with EIO/ENOSPC during sync and scrub; oracles = exit status and summary tags, independently decoded content (block states, bad marks), status -G, repair sequence + parity oracle, comparison with the fault-free twin",
-            "Every data-file read and parity read/write of sync and scrub on small arrays is a fault point (first/middle/last and the last cache-depth stripes always; all of them in thorough), single and multiple faults, io-cache 1/3/8/default. For each: failing status + diagnostic, stripe not recorded synced-and-healthy, visible in status, repaired by fix -e / scrub -p bad / next sync, every other stripe as in the fault-free twin and valid under the parity oracle.",
+            "Every data-file read and parity read/write of sync and scrub on small arrays is a fault point (first/middle/last and the last cache-depth stripes always; all of them in thorough), single and multiple faults, io-cache 1/3/8/default. For each: failing status + diagnostic, stripe not recorded synced-and-healthy, visible in status, repaired by fix -e / scrub -p bad / next sync, every other stripe as in the fault-free twin and valid under the parity oracle. Scrub is also run with one fault in EVERY touched stripe (full plan and -p 1 -o 0), so that no healthy stripe triggers the save.",
             "Faults are injected at the libc boundary once per (file, offset). Single split per level and hash size 16 here. Open findings F3/F3b (failed parity write leaves the stripe recorded synced) are reported as KNOWN-FINDING; reader-side and scrub faults are fully judged."),
     "C09": ("fault_enumeration",
             "runtime monitor: one ASan/UBSan process per content-file mutant (bits, truncations, bytes, field-aware varints/tags) with unchanged-state oracle; kill enumeration over every content-file system call through the LD_PRELOAD shim with old-or-new-version oracle and an ordering spec on the recorded event log",
-            "Fault enumeration: every single bit and every truncation length of content files of 3 (quick) / 12 (thorough) shapes covering format 2 and 3 and all record kinds, plus field-aware damage aimed at length/count/position fields; each mutant is one process under ASan+UBSan and must be rejected with nothing modified. Every content-file system call of test-rewrite/touch/sync is a kill point (before/after/mid-write) for 1..7 copies; each copy must remain a complete old or new version. The save protocol (O_EXCL tmp, fsync, re-read to EOF, rename) is checked on every recorded event log.",
+            "Fault enumeration: every single bit and every truncation length of content files of 3 (quick) / 12 (thorough) shapes covering format 2 and 3 and all record kinds, plus field-aware damage aimed at length/count/position fields; each mutant is one process under ASan+UBSan and must be rejected with nothing modified. Every content-file system call of test-rewrite/touch/sync is a kill point (before/after/mid-write) for 1..7 copies; each copy must remain a complete old or new version. The save protocol (O_EXCL tmp, fsync, re-read to EOF, rename) is checked on every recorded event log. Crafted valid files whose stored CRC ends with ff/00/01 (ffff/0000 in thorough) are cut by exactly those bytes and offered to every command.",
             "Kill = process death, not power loss (fsync is checked only as an ordering event). Multi-byte random damage passing the CRC by chance (2^-32) would be reported as accepted. Mutation positions for byte-value mutants are strided in quick."),
     "C10": ("exploration",
             "runtime monitor: byte comparison of content files before/after test-rewrite under a frozen clock, list/status dumps per content copy compared with an independent decoder, plus encoder-built content files with boundary values fed to the real loader/writer",
@@ -50,7 +50,7 @@ CHECKS = {
             "Positions bounded by 2^21+8 (memory). The decoder/encoder pair is my own (self-checked: encode(decode(x)) == x on every tool-written file); constructed files are only claimed valid in the writer's normal form."),
     "C11": ("exploration",
             "runtime monitor with a reference model: the harness performs every file-system operation itself and keeps a model; diff exit status, list -l, independently decoded content (empty dirs, block states) and frozen-reference hashes of every recorded block are compared with the model after each sync",
-            "Random operation sequences over several rounds per case, with and without usable inodes, five scan orders, parallel and sequential scan, tmpfs and ext4 scratch. Before each sync diff must exit 2 exactly when the model differs from the last recorded state; after it diff must be clean, list must equal the model, check must pass and every recorded block hash must equal the reference hash of the bytes the harness wrote - which settles 'read again rather than trusted' without trusting the tool.",
+            "Random operation sequences over several rounds per case, with and without usable inodes, five scan orders, parallel and sequential scan, tmpfs and ext4 scratch. Before each sync diff must exit 2 exactly when the model differs from the last recorded state; after it diff must be clean, list must equal the model, check must pass and every recorded block hash must equal the reference hash of the bytes the harness wrote - which settles 'read again rather than trusted' without trusting the tool. In 40 % of the changing rounds an incomplete sync (-B, -S -B, killed after the parity update) comes first and diff must exit 2 while a stripe holding a file has a block without valid parity.",
             "Sequences are sampled. Hard-link groups are compared up to the choice of which name is recorded as the file. Directory-only changes and symlink time-stamps are outside the documented scope of diff/list."),
     "C12": ("exploration",
             "runtime monitoring with two independent observers per command: before/after snapshot (type, size, mtime, inode, sha-256) of data, parity, content, pool and array root, and strace -f of the real binary reduced to file-system-changing system calls; both compared with a per-command table of allowed targets and with fix's own fixed/status tags",
